@@ -749,6 +749,7 @@ func execSentinel(t *testing.T, plan any, out *Outcome) {
 	e := newEnv(out.Seed, p, out)
 	s := e.sim
 	muxRegReset(16)
+	richIdent.Store(true)
 	wireName := func(w *muxwire) string { return muxRegName(w) }
 	muxwireName.Store(&wireName)
 	bg := sentBgName
